@@ -184,6 +184,13 @@ def catalogue(rng=None, widths=(1, 2, 3), groups=('arith', 'logic', 'fxp'), big=
 
     if 'fxp' in groups:
         fmts = [(1, i, f) for i in (1, 2, 3) for f in (0, 1, 2, 3) if 1 + i + f <= 6]
+        widefmts = []
+        for w in W:
+            if w >= 7:
+                # formats of total width w: all-integer, one fraction bit, balanced, almost all fraction
+                widefmts += sorted({(1, w - 1 - f, f) for f in (0, 1, w // 2, w - 2) if w - 1 - f >= 1})
+        if widefmts:
+            fmts = widefmts
         for f in fmts:
             w = sum(f)
             add('fxp', 'FixedPointAdd', [w, w], [w], lambda hw, i, o, f=f: P.FixedPointAdd(hw, 'dut', i[0], f, i[1], f, o[0], f),
@@ -193,13 +200,13 @@ def catalogue(rng=None, widths=(1, 2, 3), groups=('arith', 'logic', 'fxp'), big=
             add('fxp', 'FixedPointSign', [w], [1], lambda hw, i, o, f=f: P.FixedPointSign(hw, 'dut', i[0], f, o[0]), {'af': list(f)}, ' %s' % (f,))
             add('fxp', 'FixedPointComparator', [w, w], [1, 1, 1],
                 lambda hw, i, o, f=f: P.FixedPointComparator(hw, 'dut', i[0], f, i[1], f, o[0], o[1], o[2]), {'af': list(f)}, ' %s' % (f,))
-        small = [f for f in fmts if sum(f) <= 4]
+        small = [f for f in fmts if sum(f) <= 4] if not widefmts else fmts
         for af in small:
             for bf in small:
                 for rf in fmts:
                     if af[2] + bf[2] - rf[2] < 0:
                         continue
-                    if rng is not None and not (af == bf == rf) and rng.random() > (0.5 if big else 0.12):
+                    if rng is not None and not (af == bf == rf) and rng.random() > (0.5 if big else (0.3 if widefmts else 0.12)):
                         continue
                     add('fxp', 'FixedPointMult', [sum(af), sum(bf)], [sum(rf)],
                         lambda hw, i, o, af=af, bf=bf, rf=rf: P.FixedPointMult(hw, 'dut', i[0], af, i[1], bf, o[0], rf),
